@@ -86,7 +86,7 @@ theorem feedBits_flat : ∀ (bs : List Bool) (st : St) (pos : Nat) (rest : List 
         rw [this]
       | eofb => simp
 
-theorem bitsOfByte_length (b : UInt8) : (bitsOfByte b).length = 8 := by simp [bitsOfByte]
+theorem bitsOfByte_length (b : UInt8) : (bitsOfByte b).length = 8 := by simp [bitsOfByte, CcittCode.feedMasks]
 
 /-- The byte loop of `feedbytes` is the flat semantics on the concatenated bits. -/
 theorem feedBytes_flat : ∀ (bytes : List UInt8) (st : St) (pos : Nat), pos % 8 = 0 →
